@@ -47,6 +47,8 @@ def prebuild(ctx):
 
 HARNESSES = [
     dict(name="arith", src=["arith.c"], variant="asan", prebuild=prebuild, deadline={"quick": 120, "thorough": 600}),
+    # free-running ThreadSanitizer twin: two threads, each with objects of its own (harness/common/twin.c; samples, decides nothing)
+    dict(name="own-objects-tsan", src=["../common/twin.c"], variant="tsan", cflags=["-DTWIN_C16", "-DVSX_FREE_RUNS=6"], deadline={"quick": 60, "thorough": 120}),
 ]
 ASSUMPTIONS = [
     "bounds: operands on the boundary grid B(w) only (all pairs of it); frequencies <= 10^9 from a fixed list; operands off "
